@@ -35,6 +35,11 @@ META = {
             "clock and is excluded from the generated histories (DESIGN.md F25).",
 }
 
+# ---- additions of the translator / tie session
+META["text"] += (" The wheel model's atomic schedule step is tied to the source: coq/Gen/WheelShape.v (TimingWheel::schedule's loads of the "
+                 "accepting flag / lock / insertion order from clang's AST, regenerated every run) and C08/GenTie.v "
+                 "wheel_generated_schedule_rechecks (the flag is read again under the wheel mutex before the entry is inserted).")
+
 CONFIGS = [(10, 4, 2), (10, 8, 3), (10, 64, 2), (5, 16, 2), (1, 2, 3), (10, 2, 1)]
 
 
